@@ -111,9 +111,16 @@ def run(chk):
     Version = mc.Version
     base = [Version('1.30', 900, True), Version('1.30.1', 900, True), Version('24w01a', 901, False)]
     saved = list(mc.KNOWN_MINECRAFT_VERSION_RECORDS)
+    saved_obj = mc.KNOWN_MINECRAFT_VERSION_RECORDS
     try:
         for k, row in enumerate(rows):
-            mc.KNOWN_MINECRAFT_VERSION_RECORDS[:] = base
+            rebind = k % 3 == 1       # the records are replaced by a new list object (module attribute re-assigned) instead of
+            #                           being changed in place: initglobals must read the records as they are now
+            if rebind:
+                mc.KNOWN_MINECRAFT_VERSION_RECORDS = list(base)
+            else:
+                mc.KNOWN_MINECRAFT_VERSION_RECORDS = saved_obj
+                mc.KNOWN_MINECRAFT_VERSION_RECORDS[:] = base
             mc.initglobals(use_known_records=True)
             # contexts that exist before the records are extended (a long-lived Connection's context) and keep their version
             old_ctx = {p: ConnectionContext(protocol_version=p) for p in mc.KNOWN_PROTOCOL_VERSIONS}
@@ -123,7 +130,10 @@ def run(chk):
                 except Exception:       # noqa  (judged below, after the re-initialisation)
                     pass
             for op in row['hist']:
-                if op['op'] == 'extend':
+                if op['op'] == 'extend' and rebind:
+                    recs = list(mc.KNOWN_MINECRAFT_VERSION_RECORDS)
+                    mc.KNOWN_MINECRAFT_VERSION_RECORDS = recs[:op['pos']] + [Version(op['id'], op['p'], op['sup'])] + recs[op['pos']:]
+                elif op['op'] == 'extend':
                     mc.KNOWN_MINECRAFT_VERSION_RECORDS.insert(op['pos'], Version(op['id'], op['p'], op['sup']))
                 elif op['op'] == 'extend_sup':
                     mc.SUPPORTED_MINECRAFT_VERSIONS[op['id']] = op['p']
@@ -182,6 +192,7 @@ def run(chk):
             if k == len(rows) // 2:
                 chk.sample({'history': row['hist'], 'supP': want['supP'], 'knownP': want['knownP']})
     finally:
+        mc.KNOWN_MINECRAFT_VERSION_RECORDS = saved_obj
         mc.KNOWN_MINECRAFT_VERSION_RECORDS[:] = saved
         mc.initglobals(use_known_records=True)
     if snapshot(mc) != snap:
